@@ -190,7 +190,7 @@ func c10Check(spec *c10Spec, r *env.Result, an *analysis, rid string, now int64)
 	return nil
 }
 
-func c10History(c *Ctx, name string, lazy bool, b vsched.Bounds) Sched {
+func c10History(c *Ctx, name string, lazy bool, short bool, b vsched.Bounds) Sched {
 	cfg := c10Config()
 	return Sched{
 		Name:   name,
@@ -230,6 +230,11 @@ func c10History(c *Ctx, name string, lazy bool, b vsched.Bounds) Sched {
 					func() bool { return get("hit2") },
 					func() bool {
 						_ = server.VerifPurge("c1", "GET a.com /k1")
+						// if the store holds no record of the key (every write so far failed), nothing can
+						// legitimately answer the next request but the origin
+						if _, on := st.Disk["GET a.com /k1"]; !on {
+							spec.serial = ""
+						}
 						// a purge whose store delete fails cannot remove the persisted copy; C10 only
 						// demands a correct, unexpired answer (purge effectiveness is C18's subject)
 						spec.memValid = false
@@ -237,6 +242,10 @@ func c10History(c *Ctx, name string, lazy bool, b vsched.Bounds) Sched {
 					},
 					func() bool { freshCaches(cfg); spec.memValid = false; return get("after-restart") },
 					func() bool { return get("hit3") },
+				}
+				if short {
+					// cold fetch, hit, purge, lookup, hit: two faults suffice to lose both the write and the delete
+					steps = []func() bool{steps[0], steps[1], steps[4], steps[6]}
 				}
 				for _, s := range steps {
 					if !s() {
@@ -280,7 +289,7 @@ func opsString(ops []env.StoreOp) string {
 	return s
 }
 
-func c10Waiters(c *Ctx, name string, b vsched.Bounds) Sched {
+func c10Waiters(c *Ctx, name string, uncacheable bool, b vsched.Bounds) Sched {
 	cfg := c10Config()
 	return Sched{
 		Name:   name,
@@ -292,7 +301,12 @@ func c10Waiters(c *Ctx, name string, b vsched.Bounds) Sched {
 			freshCaches(cfg)
 			vtime.Set(vtime.Base)
 			vsched.ClockStart = vtime.Base
-			e.Respond = func(oc *env.OriginCall) env.OriginResp { return env.Cacheable(oc, c10T, "p") }
+			e.Respond = func(oc *env.OriginCall) env.OriginResp {
+				if uncacheable {
+					return env.Uncacheable(oc, "p")
+				}
+				return env.Cacheable(oc, c10T, "p")
+			}
 			e.Events()
 			st.Menu = func(op string, key []byte) []env.Fault {
 				if op == "get" {
@@ -323,6 +337,11 @@ func c10Waiters(c *Ctx, name string, b vsched.Bounds) Sched {
 				if v := an.labelTruth(); v != nil {
 					return v
 				}
+				if uncacheable {
+					// after the failed/uncacheable fetch the waiters pass to the origin themselves
+					st.Menu = nil
+					return c02Post(e, "c1", "/k1")
+				}
 				if len(an.Calls) != 1 {
 					return &vsched.Violation{Sig: "extra-fetch", Msg: fmt.Sprintf("%d origin fetches for 3 coalesced requests under store faults", len(an.Calls))}
 				}
@@ -344,8 +363,10 @@ func init() {
 			d = 3
 			pre = 3
 		}
-		c.RunSched(c10History(c, "history-faults", false, vsched.Bounds{Preempt: 0, Tick: 0, Data: d, Total: -1}))
-		c.RunSched(c10History(c, "history-faults-lazy-store", true, vsched.Bounds{Preempt: 0, Tick: 0, Data: d, Total: -1}))
-		c.RunSched(c10Waiters(c, "waiters-faults", vsched.Bounds{Preempt: pre, Tick: 0, Data: 2, Total: pre + 1}))
+		c.RunSched(c10History(c, "history-faults", false, false, vsched.Bounds{Preempt: 0, Tick: 0, Data: d, Total: -1}))
+		c.RunSched(c10History(c, "history-faults-lazy-store", true, false, vsched.Bounds{Preempt: 0, Tick: 0, Data: d, Total: -1}))
+		c.RunSched(c10History(c, "short-history-faults", false, true, vsched.Bounds{Preempt: 0, Tick: 0, Data: d, Total: -1}))
+		c.RunSched(c10Waiters(c, "waiters-faults", false, vsched.Bounds{Preempt: pre, Tick: 0, Data: 2, Total: pre + 1}))
+		c.RunSched(c10Waiters(c, "waiters-faults-uncacheable", true, vsched.Bounds{Preempt: pre, Tick: 0, Data: 2, Total: pre + 1}))
 	})
 }
